@@ -20,12 +20,18 @@
    [F4] string-number-literal-before-dot-ambiguous (known finding): an integer
         literal printed directly before a period or an ellipsis (lex_stable on
         the printed form).
-   [N1] a result type written without parentheses that does not start with a
-        token of gen_result_start (parseFuncParameters): func() (<-chan T) is
-        printed as func() <-chan T.
-   [N2] a function type without result followed by ( or by a token that starts
-        a result, a type-mode identifier followed by a period: ([]func())(f)
-        is printed as []func()(f), ([]T).m as []T.m.
+   [N1] a result type written without parentheses must start with a token of
+        the generated list gen_result_start (the case list of
+        parseFuncParameters): func() (<-chan T) is printed func() <-chan T,
+        which did not parse back before the arrow was added to that list
+        (repaired in the implementation; the condition follows the list).
+   [N2] string-conversion-to-type-ending-in-func-ambiguous (new finding): a
+        function type without result followed by ( or by a token that starts
+        a result: ([]func())(f) is printed []func()(f).  The same rule rejects
+        a type-mode identifier followed by a period, ([]T).m printed []T.m
+        (never valid source).
+   [N3] string-struct-tag-with-backquote-ambiguous (new finding): a struct
+        tag is printed between backquotes whatever it contains (lex_stable).
    [D]  String is not source text by design: function literals, composite
         literals with elements unless ast.expandedPrint is set, x.(type)
         elsewhere than as the whole guard of a type switch, identifiers
